@@ -428,6 +428,12 @@ def scn_history(ctx):
 
                     try:
                         objs[which] = copy.deepcopy(objs[which]) if how == 2 else pickle.loads(pickle.dumps(objs[which]))
+                        # a copy carries its own copy of the configuration; the history's later
+                        # `edit_config` edits the shared one, so the copy is pointed back at it
+                        # (otherwise the harness itself would make the copy "remember" the old
+                        # configuration and raise a false alarm — it did, thorough seed 23)
+                        if hasattr(objs[which], "config"):
+                            objs[which].config = tcfg if which == "too" else cfg
                         if which == "cloud":
                             clouds.pop("config", None)
                         ctx.probes["object_replaced_by_" + ("deepcopy" if how == 2 else "pickle_round_trip")] += 1
